@@ -600,8 +600,19 @@ func (c *Coordinator) Run() int {
 			wg.Add(1)
 			go func() {
 				defer wg.Done()
-				_, bk := c.runBatch(st, []string{Desc{st.side, "GET", "/v1/replicas", "-", "-", "none", "n"}.String()}, false)
+				res, bk := c.runBatch(st, []string{Desc{st.side, "GET", "/v1/replicas", "-", "-", "none", "n"}.String()}, false)
 				keys[i][k] = bk
+				// a state class whose probe set already fails when it is built is never explored: what the probes found there
+				// is a result like any other (this result used to be dropped: a class broken from the start went unreported)
+				if k == 0 {
+					c.mu.Lock()
+					for _, r := range res {
+						if r != nil && len(r.Viol) > 0 {
+							c.record(st, r, 0)
+						}
+					}
+					c.mu.Unlock()
+				}
 			}()
 		}
 	}
